@@ -234,10 +234,17 @@ def main_check(prop: str, tier: str, repo_root: str, replay: Optional[str] = Non
                 )
         if not ctx.insts:
             problems.append("no rule instance was evaluated")
-        if problems:
+        known0 = load_known()
+        has_new_violation = any(
+            (not i.holds) and match_known(prop, i, known0) is None for i in ctx.insts
+        )
+        if problems and not has_new_violation:
             for p in problems:
                 print(f"ANALYSIS-ERROR property={prop} {p}")
             return 2
+        for p in problems:
+            # a violation was found as well: report it (exit 1) and mention the matcher issue
+            print(f"NOTE property={prop} {p}")
     except AnalysisError as exc:
         print(f"ANALYSIS-ERROR property={prop} {exc}")
         return 2
